@@ -25,6 +25,8 @@ def run(ctx):
             else:
                 at = rnd.randrange(len(table))
                 fault, model_rows = {"kind": "wrongdelim", "at": at}, table[:at]
+        if fault is True and fmt == "fixed" and rnd.random() < 0.3:
+            fault = {"kind": "blanktail"}   # the surplus character of the short record is a blank
         fault_at = None
         if rnd.random() < 0.12:
             # undecodable bytes in front of record `fault_at` of a file that is read through its path
